@@ -55,6 +55,25 @@ def scenarios(draw):
         if sc["variant"]["form"] == "gtf" and sc["variant"]["complete"] and sc["variant"]["cache"] == "fresh":
             sc["variant"]["cache"] = "reused"
     else:
+        # a second record of a read with the same span and a junction placed 2 bp apart (aligners report such
+        # secondary alignments at repeats next to splice sites)
+        if src.bool(0.4):
+            extra = []
+            for r in sc["reads"]:
+                if r.get("c") is not None and len([o for o in r["cg"] if o[0] == 3]) >= 1 and src.bool(0.3):
+                    r2 = copy.deepcopy(r)
+                    cg = r2["cg"]
+                    for i in range(1, len(cg) - 1):
+                        if cg[i][0] == 3 and cg[i - 1][0] == 0 and cg[i + 1][0] == 0 and cg[i - 1][1] > 12 and \
+                                cg[i + 1][1] > 12:
+                            cg[i - 1][1] += 2
+                            cg[i + 1][1] -= 2
+                            break
+                    else:
+                        continue
+                    r2["f"] = r2["f"] | 256
+                    extra.append(r2)
+            sc["reads"] += extra
         k = src.int(2, 4)
         sc["variant"] = {"dim": "bam", "k": k, "assign": [src.int(0, k - 1) for _ in sc["reads"]]}
         sc["opts"] += ["--no_model_construction"]
@@ -146,9 +165,23 @@ def evaluate(case, ctx):
                               {"variant": {"k": v["k"]}, "log": res2.log_tail(10)}, case)
                 return
             diffs = compare.diff_dirs(base.out, "OUT", res2.out, "OUT", multiset=True, only=set(BAM_FILES))
+            # reads with two records of the same span (root cause of a known finding: the resolver takes them for
+            # duplicates and keeps whichever comes first in the merged stream)
+            spans = {}
+            for r in sc["reads"]:
+                if r.get("c") is not None:
+                    spans.setdefault((r["n"], r["c"], r["p"], R.ref_end_of(r)), []).append(r)
+            twins = set(k_[0] for k_, v_ in spans.items() if len(v_) > 1)
             for kind, f, det in diffs:
-                ctx.violation("C12:bam-partition-changes-output:%s" % f, {"kind": kind, "file": f, "detail": det,
-                                                                          "k": v["k"]}, case)
+                names = set()
+                for line in (det.get("first"), det.get("second")) if isinstance(det, dict) else ():
+                    if line:
+                        cols = line.split("\t")
+                        names.add(cols[3] if f.endswith(".bed") and len(cols) > 3 else cols[0])
+                suffix = ":same-span-records-of-one-read" if names and names <= twins and \
+                    f in ("read_assignments.tsv", "corrected_reads.bed") else ""
+                ctx.violation("C12:bam-partition-changes-output:%s%s" % (f, suffix),
+                              {"kind": kind, "file": f, "detail": det, "k": v["k"]}, case)
             ctx.cls("bam_partition_k=%d" % v["k"])
             # non-trivial: reads of one gene end up in different files
             by_gene = {}
